@@ -19,6 +19,11 @@ CHECKS = {
         text="Lean theorems over a model of RequestDecoder/ResponseEncoder/ResponseDecoder/SetContentType with mime.ParseMediaType as an oracle: the encoder is never nil, JSON fallback, response round trip for every Accept x designed content type without a pre-set header (resp_roundtrip, under two explicit parser hypotheses checked on the real mime package in every run), a partial theorem plus kernel-checked negation witnesses for pre-set headers (two known findings), request table, 415 for unsupported media types (over the regenerated StatusCode). Tie: differential run of the real functions, with real codecs and a real encode/decode round trip, against the compiled model.",
         note="Trusted: Lean kernel; hand-written selection model validated by correspondence (0 disagreements required); stdlib codecs and mime parser are exercised, not proved; request-side pre-set Content-Type outside the quantifier.",
         ref="DESIGN.md §3 C15"),
+    "C19": dict(
+        category="proof",
+        text="Lean theorems over a model of the request-ID options/selection/truncation, the trace middleware, the traced client and chains of calls, and ResponseCapture: non-empty ID, trusted value truncated to the byte limit, fresh otherwise; an inbound trace ID is kept regardless of sampling and discards; by induction over chain depth every hop shares the trace ID and has the previous hop's span as parent; sampling 0/100 exact for every RNG (over fixedSampler.Sample regenerated from /repo); capture_exact: captured status/length equal what the underlying writer sent for every WriteHeader/Write sequence. Tie: the real HTTP middleware and both gRPC interceptors (unary, stream), real WrapDoer/UnaryClientTrace/StreamClientTrace in chains, real ResponseCapture over a recorder, all compared line by line with the compiled model.",
+        note="Trusted: Lean kernel; hand-written model validated by correspondence; gotolean for the sampler; adaptive sampler arithmetic (floats, clock) and 1xx informational codes not modelled; crypto/rand IDs canonicalised as FRESH.",
+        ref="DESIGN.md §3 C19"),
 }
 
 m = {
